@@ -34,7 +34,7 @@ pub fn shards(tier: &str) -> Vec<String> {
         }
     }
     v.extend(super::allops::shards(tier));
-    v.extend(hist::shards_for(&["mtbddf", "mtbddc"], &["n64c16t1"], if tier == "thorough" { 2 } else { 1 }));
+    v.extend(hist::shards_for(&["mtbddf", "mtbddc", "zbdds"], &["n64c16t1"], if tier == "thorough" { 2 } else { 1 }));
     if tier == "thorough" {
         v.extend(hist::shards_for(&KINDS, &["n64c1t1", "n64c1024t1", "n64c16t2"], 2));
     } else {
